@@ -239,7 +239,7 @@ def repeated_param_boxes(c):
     return n
 
 
-JAC_KW_EVERY = 1          # run(): 2 in the quick tier
+JAC_KW_EVERY = 1          # run() sets 2: the keyword stream runs on every second circuit
 
 JAC_KEYWORDS = [("default", {}), ("mixed=True", {"mixed": True}), ("mixed=False", {"mixed": False})]
 
@@ -481,8 +481,8 @@ def check_circuit(rep, rng, syms, c, mode, jacobian=True, extra=None, collect=No
     width = max([len(c.dom)] + [len(left) + max(len(box.dom), len(box.cod)) + len(right)
                                 for left, box, right in c.layers])
     if collect is None and zlib.crc32(repr(c).encode()) % JAC_KW_EVERY == 0:
-        # (not inside the histories: those are about values kept between calls; quick tier: on
-        # every second circuit -- building a gradient costs 20-40 ms)
+        # (not inside the histories: those are about values kept between calls; on every second
+        # circuit -- building a gradient costs 20-40 ms)
         t_kw = time.process_time()
         check_jacobian_keywords(rep, random.Random(zlib.crc32(repr(c).encode())), syms, c, desc,
                                 amp=None if mixed else es, cq=es if mixed else None,
@@ -1315,7 +1315,7 @@ def run(tier, seed, replay=None):
     rep = Report(PROP, tier, seed)
     quick = tier == "quick"
     global JAC_KW_EVERY
-    JAC_KW_EVERY = 2 if quick else 1
+    JAC_KW_EVERY = 2          # (thorough has 5-8 times as many circuits: every second one there too)
     rep.rule = ("tensor diagrams (1-4 layers, symbolic / daggered boxes, swaps, spiders, single-wire "
                 "polynomial bubbles alone and inside diagrams), pure circuits (grad(mixed=False), "
                 "amplitudes) and pure+mixed circuits (default parameter-shift grad, CQ maps) over "
